@@ -401,6 +401,15 @@ func check(id, tier string) int {
 		}
 	}
 	if violation == nil {
+		if agg.DetFailures > 2 && agg.DetFailures*20 > agg.DetChecks {
+			agg.write(time.Since(start).Seconds(), 0)
+			fmt.Fprintf(os.Stderr, "pbsim: %d of %d in-worker determinism rechecks diverged: the scheduler no longer controls this tree (scenarios kept as nondet-*.json)\n", agg.DetFailures, agg.DetChecks)
+			keepInfra(dir)
+			return 2
+		}
+		if agg.DetFailures > 0 {
+			fmt.Fprintf(os.Stderr, "pbsim: note: %d of %d in-worker determinism rechecks diverged (a long-lived worker took a slightly different path than the scenario's own replay; counted in the evidence file)\n", agg.DetFailures, agg.DetChecks)
+		}
 		agg.write(time.Since(start).Seconds(), 0)
 		fmt.Printf("pbsim: %s %s: property held on %d scenarios (%d evaluations, %d distinct non-trivial), %.1fs\n", id, tier, agg.Runs, agg.evaluations(), len(agg.keys), time.Since(start).Seconds())
 		return 0
@@ -588,6 +597,7 @@ type aggregate struct {
 	Probes        map[string]int64
 	Known         map[string]int64
 	DetChecks     int64
+	DetFailures   int64
 	keys          map[uint64]struct{}
 	Samples       []json.RawMessage
 	Builds        []map[string]any
@@ -621,6 +631,7 @@ func (a *aggregate) add(b built, rs []*workerResult, odir string) {
 		a.Switches += r.Switches
 		a.SwitchIn += r.SwitchIn
 		a.DetChecks += r.DetChecks
+		a.DetFailures += r.DetFailures
 		for k, v := range r.Faults {
 			a.Faults[k] += v
 		}
@@ -680,32 +691,33 @@ func (a *aggregate) write(wall float64, violations int) {
 		perHour = float64(a.Runs) / a.SearchS * 3600
 	}
 	cov := map[string]any{
-		"evaluations":          max64(a.evaluations(), 0),
-		"distinct_nontrivial":  distinct,
-		"rule":                 p.Rule,
-		"samples":              samples,
-		"scenarios":            a.Runs,
-		"scenarios_per_hour":   int64(perHour),
-		"seeds":                a.Runs,
-		"sequential_dry_runs":  a.DryRuns,
-		"logical_steps":        a.Steps,
-		"context_switches":     a.Switches,
-		"switches_inside_op":   a.SwitchIn,
-		"simulated_time":       "none — nothing in scope reads a clock; logical steps (scheduler yields) are reported instead",
-		"faults_fired":         a.Faults,
-		"probes":               a.Probes,
-		"probes_stuck_at_zero": stuck,
-		"determinism_rechecks": a.DetChecks,
-		"builds":               a.Builds,
-		"components":           p.Components,
-		"known_finding_hits":   a.Known,
-		"shrink_replays":       a.ShrinkReplays,
-		"exhaustive":           false,
-		"search_wall_s":        round1(a.SearchS),
-		"worker_processes":     runtime.NumCPU(),
-		"scheduler":            "seeded; one turn-holder at a time; hand-off invisible to the race detector",
-		"clauses_decided":      p.Clauses,
-		"clauses_not_decided":  p.NotDecided,
+		"evaluations":                     max64(a.evaluations(), 0),
+		"distinct_nontrivial":             distinct,
+		"rule":                            p.Rule,
+		"samples":                         samples,
+		"scenarios":                       a.Runs,
+		"scenarios_per_hour":              int64(perHour),
+		"seeds":                           a.Runs,
+		"sequential_dry_runs":             a.DryRuns,
+		"logical_steps":                   a.Steps,
+		"context_switches":                a.Switches,
+		"switches_inside_op":              a.SwitchIn,
+		"simulated_time":                  "none — nothing in scope reads a clock; logical steps (scheduler yields) are reported instead",
+		"faults_fired":                    a.Faults,
+		"probes":                          a.Probes,
+		"probes_stuck_at_zero":            stuck,
+		"determinism_rechecks":            a.DetChecks,
+		"determinism_recheck_divergences": a.DetFailures,
+		"builds":                          a.Builds,
+		"components":                      p.Components,
+		"known_finding_hits":              a.Known,
+		"shrink_replays":                  a.ShrinkReplays,
+		"exhaustive":                      false,
+		"search_wall_s":                   round1(a.SearchS),
+		"worker_processes":                runtime.NumCPU(),
+		"scheduler":                       "seeded; one turn-holder at a time; hand-off invisible to the race detector",
+		"clauses_decided":                 p.Clauses,
+		"clauses_not_decided":             p.NotDecided,
 	}
 	ev := map[string]any{
 		"property_id": a.ID,
